@@ -235,7 +235,10 @@ func (ip *interp) file(file string, st *State) error {
 				ip.fact(file, len(items), i, f)
 				return nil
 			}
-			for v := g.Start; v <= g.Stop; v += g.Step {
+			// one record per step of the range: Start, Start+Step, ... while <= Stop. The values
+			// are computed as Start + i*Step (no running sum that could wrap around).
+			for k := int64(0); k < n; k++ {
+				v := g.Value(k)
 				rec, err := st.generated(g, v)
 				if err != nil {
 					if errors.Is(err, errMissingTTL) {
